@@ -314,6 +314,13 @@ Definition q_series (m : market) : ov :=
       VL (map (fun t => VZ (getz (m_vol m) t)) ts); VL (map (fun t => VQ (getq (m_turn m) t)) ts);
       VL (map (fun t => VZ (getz (m_nbuy m) t)) ts); VL (map (fun t => VZ (getz (m_nsell m) t)) ts)].
 
+(* plural getters with an explicit list of times: refused as soon as one requested time lies in the future *)
+Definition q_times (m : market) (ts : list Z) : ov :=
+  if existsb (fun t => t >? m_time m) ts then verr EFuture else
+  VL [VL (map (fun t => voq (geto (m_mid m) t)) ts); VL (map (fun t => voq (geto (m_last m) t)) ts);
+      VL (map (fun t => VZ (getz (m_vol m) t)) ts); VL (map (fun t => VQ (getq (m_turn m) t)) ts);
+      VL (map (fun t => VZ (getz (m_nbuy m) t)) ts); VL (map (fun t => VZ (getz (m_nsell m) t)) ts)].
+
 (* ---------------- operations of the Level-M interface ---------------- *)
 Inductive op :=
 | OAdd (ag mk : Z) (buy : bool) (p : option Q) (v : Z) (ttlv : option Z)
@@ -326,7 +333,8 @@ Inductive op :=
 | ORun (b : bool)
 | QState
 | QAt (t : Z)
-| QSeries.
+| QSeries
+| QTimes (ts : list Z).     (* plural getters with an explicit list of times *)
 
 (* state-changing operations: new state and the records (logs) they emit *)
 Definition step_rec (m : market) (o : op) : result (market * list record) :=
@@ -339,7 +347,7 @@ Definition step_rec (m : market) (o : op) : result (market * list record) :=
   | OExec => execution m
   | OTick f => Ok (tick m f)
   | ORun b => Ok (m <| m_running := b |>, [])
-  | QState | QAt _ | QSeries => Ok (m, [])
+  | QState | QAt _ | QSeries | QTimes _ => Ok (m, [])
   end.
 
 Definition render (m : market) (o : op) (rs : list record) : ov :=
@@ -349,6 +357,7 @@ Definition render (m : market) (o : op) (rs : list record) : ov :=
   | QState => q_state m
   | QAt t => q_at m t
   | QSeries => q_series m
+  | QTimes ts => q_times m ts
   | _ => VN
   end.
 
